@@ -88,9 +88,23 @@ pub fn c10_solo(out: &RunOut) -> (Vec<Violation>, u64, u64) {
                 },
             };
             compared += 1;
+            // integer data: exact; otherwise within a few ulps of the terms (an implementation is free
+            // to associate the accumulation differently)
             let same = match (&want, aft) {
                 (None, None) => true,
-                (Some(w), Some(a)) => w.dims == a.dims && w.vals() == a.vals(),
+                (Some(w), Some(a)) => {
+                    w.dims == a.dims
+                        && if out.regime == Regime::Int {
+                            w.vals() == a.vals()
+                        } else {
+                            let bv = bef.as_ref().map(|o| o.vals()).unwrap_or_default();
+                            let sv = so.as_ref().map(|o| o.vals()).unwrap_or_default();
+                            w.vals().iter().zip(a.vals()).enumerate().all(|(i, (x, y))| {
+                                let scale = bv.get(i).map(|v| v.abs()).unwrap_or(0.0) + sv.get(i).map(|v| v.abs()).unwrap_or(0.0);
+                                (x - y).abs() <= 8.0 * eps() * scale
+                            })
+                        }
+                }
                 _ => false,
             };
             if !same {
@@ -815,4 +829,43 @@ pub fn c10_sweep(out: &RunOut, seed: u64, exhaustive: bool) -> (Vec<Violation>, 
         }
     }
     (vec![], forks)
+}
+
+// ------------------------------------------------------------------- C11: exhaustive small DAGs
+
+/// The `index`-th DAG of `n` user-operation nodes over one tracked leaf: node k (1-based) is an
+/// n-ary linear user operation over 1..=3 operands drawn (with repetition) from the leaf and the
+/// earlier nodes. Returns None when the index is out of range.
+pub fn small_dag(n: usize, mut index: u64) -> Option<Vec<Ev>> {
+    let mut evs = vec![Ev::Leaf { dst: 0, dims: vec![2], vals: vec![1.0, -2.0], mode: LeafMode::Tracked }];
+    for k in 1..=n {
+        let avail = k as u64; // leaf + (k-1) earlier nodes
+        let choices = avail + avail * avail + avail * avail * avail;
+        let mut c = index % choices;
+        index /= choices;
+        let arity = if c < avail {
+            1
+        } else if c < avail + avail * avail {
+            c -= avail;
+            2
+        } else {
+            c -= avail + avail * avail;
+            3
+        };
+        let mut args = Vec::new();
+        for _ in 0..arity {
+            args.push((c % avail) as usize);
+            c /= avail;
+        }
+        let coef: Vec<f64> = (0..arity).map(|i| [1.0, 2.0, -1.0][i]).collect();
+        evs.push(Ev::Build { dst: k, op: Op::Custom { kind: CustomKind::Lin, coef, script: vec![] }, args });
+    }
+    if index != 0 {
+        return None;
+    }
+    Some(evs)
+}
+
+pub fn small_dag_count(n: usize) -> u64 {
+    (1..=n as u64).map(|a| a + a * a + a * a * a).product()
 }
